@@ -45,8 +45,7 @@ def World.dump (w : World) : String :=
     if v = 0 then none else some (a.name ++ "." ++ toString k ++ "=" ++ toString v)))).flatten)
   let acc := sortDedup (w.access.map Addr.name)
   "A[" ++ joinWith ";" accts ++ "] B[" ++ joinWith ";" bals ++ "] L[" ++ joinWith ";" logs
-    ++ "] T[" ++ joinWith ";" trans ++ "] X[" ++ joinWith ";" acc ++ "] h=" ++ toString w.thash
-    ++ " i=" ++ toString w.txIndex ++ " z=" ++ toString w.logSize
+    ++ "] T[" ++ joinWith ";" trans ++ "] X[" ++ joinWith ";" acc ++ "]"
 
 def fnv1a (s : String) : UInt64 :=
   s.toUTF8.foldl (fun h b => (h ^^^ b.toUInt64) * 1099511628211) 14695981039346656037
